@@ -41,6 +41,9 @@ Right(op, a, b, o, oq, orr) ==
               /\ IsDivRem(a, b, AsBig(oq), AsBig(orr))
     [] OTHER -> o.c = "B" /\ o.v = CmpHolds(op, Cmp(a, b))
 
+(* unary minus of a (written on a literal, a parameter and a global): exact, or an error when -a leaves the range *)
+RightNeg(a, o) == IF InRange(Neg(a)) THEN IsInt(o) /\ AsBig(o) = Neg(a) ELSE o.c = "E"
+
 Wrong ==
   LET r == Recs[pid]
       a == Mk(r.a.neg, r.a.mag)
@@ -48,6 +51,9 @@ Wrong ==
       allops == {"+", "-", "*", "/", "%", "<", "<=", ">", ">=", "==", "!="}
   IN {<<op, f>> \in allops \X (1..3) :
         ~Right(op, a, b, r.obs[op][f], r.obs["/"][f], r.obs["%"][f])}
+     \cup (IF "neg" \in DOMAIN r.obs
+           THEN {<<"neg", f>> : f \in {g \in 1..3 : ~RightNeg(a, r.obs["neg"][g])}}
+           ELSE {})
 
 Init == pid \in 1..Len(Recs)
 Next == UNCHANGED pid
